@@ -822,6 +822,16 @@ class Interp(object):
         v = self.eval(e.value, fr) if e.value is not None else VNone
         if fr.yields is None:
             raise Undecided('yield outside generator frame')
+        if '$yseq' in fr.env:
+            # ghost SEQUENCE of yielded interaction-list rows  u<delim>v<delim>op<delim>t  (order matters: C10)
+            from .sym import evrow
+            if not (v.kind == 'rowstr' and len(v.fields) == 4 and v.fields[3].kind == 'int'):
+                raise Undecided('yield of a value that is not a row u v op t')
+            code = evrow(to_evk(VTuple(v.fields[:3])), v.fields[3].z)
+            ys, n = fr.env['$yseq'].z, fr.env['$ylen'].z
+            fr.env['$yseq'] = VOpaque(z3.Store(ys, n, code), 'ghost')
+            fr.env['$ylen'] = VInt(n + 1)
+            return VNone
         if '$yrow' in fr.env:
             # ghost multiset of yielded edge-list rows (u, v, t)
             if not (v.kind == 'rowstr' and len(v.fields) == 3 and v.fields[0].kind == 'node' and v.fields[1].kind == 'node' and v.fields[2].kind == 'int'):
